@@ -6,6 +6,7 @@ the latched error; the sink fails according to an ARBITRARY schedule
 ones" are two instances).
 -/
 import CoapLite.Lemmas.LinkWrite
+import CoapLite.Lemmas.LinkWriteOps
 import CoapLite.Lemmas.Shape.Link
 import CoapLite.Lemmas.Shape.Global
 
@@ -37,6 +38,39 @@ theorem once_and_persistent_agree (fails : Nat → Bool) (nl : Bool) (d : Doc) (
     (writeDoc fails nl d).sink = (writeDoc (fun i => decide (i ≥ k)) nl d).sink ∧
     (writeDoc fails nl d).sink = (writeDoc (fun i => decide (i = k)) nl d).sink :=
   sink_at_failure fails nl d k hk
+
+/-- THE WRITER AS AN API: for EVERY sequence of `link`, attribute and `set_add_newlines` calls (the
+option may be switched again anywhere, also after a failure) and every fault schedule: the finally
+reported result is an error iff one of the calls the writer issues fails, the sink holds a prefix of
+the fault-free output of the same call sequence, and no call is issued after the first failed one -/
+theorem api_faults_reported_and_nothing_after (fails : Nat → Bool) (nl : Bool) (ops : List WOp) :
+    let w := writeOps fails nl ops
+    let w0 := writeOps noFault nl ops
+    (w.finish = false ↔ ∃ k, k < w0.calls ∧ fails k = true) ∧
+    w.sink <+: w0.sink ∧
+    (match firstFail fails w0.calls with
+     | some k => w.calls = k + 1 ∧ w.error = true
+     | none => w = w0) :=
+  P.writeOps_faults fails nl ops
+
+/-- a document written link by link is one such call sequence -/
+theorem document_is_a_call_sequence (fails : Nat → Bool) (nl : Bool) (d : Doc) :
+    writeDoc fails nl d = writeOps fails nl d.ops :=
+  writeDoc_eq_writeOps fails nl d
+
+/-- `set_add_newlines` touches nothing but the flag: a latched failure survives it -/
+theorem set_add_newlines_keeps_error (w : W) (b : Bool) :
+    (w.setNl b).error = w.error ∧ (w.setNl b).sink = w.sink ∧ (w.setNl b).calls = w.calls ∧
+    (w.setNl b).isFirst = w.isFirst := ⟨rfl, rfl, rfl, rfl⟩
+
+/-! non-vacuity: the option switched on before the second link; the ',' call (index 3) fails once -/
+example : (writeOps (fun i => decide (i = 3)) false
+    [.link "a".toList, .setNl true, .link "b".toList, .setNl false, .link "c".toList]).sink = "<a>".toList ∧
+  (writeOps (fun i => decide (i = 3)) false
+    [.link "a".toList, .setNl true, .link "b".toList, .setNl false, .link "c".toList]).finish = false ∧
+  (writeOps noFault false
+    [.link "a".toList, .setNl true, .link "b".toList, .setNl false, .link "c".toList]).sink = "<a>,\n\r<b>,<c>".toList := by
+  decide
 
 /-! non-vacuity: the D12 situation – newlines on, the ',' call (index 3) fails once -/
 def exDoc : Doc := [("a".toList, []), ("b".toList, [])]
